@@ -281,6 +281,26 @@ CLAIMED = {
              "are not covered here.",
         technique="TLA+ reader of the value / entity JSON format as the judge; TLC trace validation of recorded encode / decode / "
                   "re-encode round trips and alternative spellings"),
+    "C10": dict(
+        category="exploration",
+        text="spec/Totality.tla states the property (every stage of every run ends in a value or an error) and defines the families of "
+             "inputs. MC_Totality reads seed documents recorded from the real encoders (policy, policy-set, value, entity, entity-map, "
+             "schema JSON) and TLC emits EVERY single-position mutation of each -- subtree replaced by null / {} / [] / \"\" / 0 / true, "
+             "every array element and object member deleted, every member duplicated or renamed under an operator name or escape "
+             "word (27k documents quick); the harness feeds each to every decoder of its kind and every accepted value on to "
+             "MarshalCedar / MarshalJSON / Encoder and cedar.Authorize, each stage under recover() and a deadline. The token-mutation "
+             "universe of C07 (TLC-generated) goes through Policy / PolicyList / PolicySet-from-bytes / Decoder the same way; nesting "
+             "families (parentheses, !, -, if, sets, records, attribute chains, && chains, JSON arrays / records / Set / ! nodes, "
+             "schema Set<> and record types) run at depths 10^3, 10^4 (thorough 10^5) in child processes (a Go stack overflow is "
+             "fatal); every truncation and random byte edits of valid documents of every kind (incl. entity-UID text, schema text, "
+             "request JSON) are recorded and validated by TLC (Trace_Total).",
+        design_ref="DESIGN.md 4 C10",
+        note=TRUSTED + "This is where the technique is weakest: arbitrary byte strings cannot be enumerated; the specification contributes "
+             "the structured families and the statement. 'Bounded time' is a deadline (10 s per stage, 600 s per nesting case). "
+             "Accept / reject agreement with the specification is judged under C07 / C09 / C13, not here.",
+        technique="TLA+-defined mutation families (every single-position mutation of recorded JSON documents, token mutations) "
+                  "enumerated by TLC and executed against all decoders / encoders / the authorizer; TLC trace validation of recorded "
+                  "truncation and byte-edit runs against the totality predicate"),
 }
 
 HOOK_COMMITS = ["82e75f7fe48a39cfaaa51c07619f57b1dcd3cfd5"]   # /repo: x/exp/verifhook/verifhook.go (//go:build verif), re-exports the policy tokenizer (C18)
